@@ -337,7 +337,63 @@ func genSQL(repo, out string) {
 		}
 		sb.WriteString("\n")
 	}
-	sb.WriteString("]\n\nend Shovel.Gen.Sql\n")
+	sb.WriteString("]\n")
+	// ---- the statements of a reorg rollback: every database call of Task.Delete and Integration.Delete with its
+	// statement text (whitespace normalised; a constant of the function, possibly through fmt.Sprintf) and the
+	// arguments bound to it, in source order
+	{
+		var calls []string
+		for _, fl := range []struct{ file, recv string }{{"shovel/task.go", "Task"}, {"dig/dig.go", "Integration"}} {
+			f := parse(repo, fl.file)
+			if f == nil {
+				continue
+			}
+			for _, d := range f.Decls {
+				fd, ok := d.(*ast.FuncDecl)
+				if !ok || fd.Body == nil || fd.Recv == nil || fd.Name.Name != "Delete" || !strings.HasSuffix(src(fd.Recv.List[0].Type), fl.recv) {
+					continue
+				}
+				consts := map[string]string{}
+				ast.Inspect(fd.Body, func(n ast.Node) bool {
+					if vs, ok := n.(*ast.ValueSpec); ok {
+						for i, nm := range vs.Names {
+							if i < len(vs.Values) {
+								if bl, ok := vs.Values[i].(*ast.BasicLit); ok && bl.Kind == token.STRING {
+									consts[nm.Name] = strings.Join(strings.Fields(strings.Trim(bl.Value, "`\"")), " ")
+								}
+							}
+						}
+					}
+					return true
+				})
+				ast.Inspect(fd.Body, func(n ast.Node) bool {
+					c, ok := n.(*ast.CallExpr)
+					if !ok {
+						return true
+					}
+					sel, ok := c.Fun.(*ast.SelectorExpr)
+					if !ok || src(sel.X) != "pg" || len(c.Args) < 2 {
+						return true
+					}
+					stmt := src(c.Args[1])
+					if inner, ok := c.Args[1].(*ast.CallExpr); ok && src(inner.Fun) == "fmt.Sprintf" && len(inner.Args) > 0 {
+						stmt = src(inner.Args[0])
+					}
+					if v, ok := consts[stmt]; ok {
+						stmt = v
+					}
+					var args []string
+					for _, a := range c.Args[2:] {
+						args = append(args, src(a))
+					}
+					calls = append(calls, fmt.Sprintf("%s.Delete %s: %s <- %s", fl.recv, sel.Sel.Name, stmt, strings.Join(args, ", ")))
+					return true
+				})
+			}
+		}
+		fmt.Fprintf(&sb, "\n/-- the database calls of a reorg rollback (Task.Delete, Integration.Delete): statement <- bound arguments -/\ndef rollbackCalls : List String := %s\n", leanStrList(calls))
+	}
+	sb.WriteString("\nend Shovel.Gen.Sql\n")
 	writeIfChanged(filepath.Join(out, "Sql.lean"), sb.String())
 }
 
